@@ -345,6 +345,12 @@ func runC16(c *Ctx) {
 				}
 			}
 		}
+		// bytes.Clone(b) / slices.Clone(b): the library's spelling of append([]byte{}, b...)
+		if ap != nil && !okMake {
+			if id := p.CalleeID(ap.Common()); (id == "bytes.Clone" || strings.HasPrefix(id, "slices.Clone")) && len(ap.Common().Args) == 1 && unspill(ap.Common().Args[0]) == ssa.Value(wr.Params[1]) {
+				okMake = true
+			}
+		}
 		if okMake {
 			// holds
 		} else if ap == nil || p.CalleeID(ap.Common()) != "builtin:append" || unspill(ap.Common().Args[1]) != ssa.Value(wr.Params[1]) {
